@@ -6,6 +6,7 @@ ElementOps,EditDoc}`), for *every* operation script (a list of API calls of any 
 and every sink function `enc : ContentType → Bytes → Bytes` (escaping + encoding is abstract).
 -/
 import LolHtml.Lemmas.Edit
+import LolHtml.Lemmas.EditDoc
 
 namespace LolHtml.Thm.C07
 open LolHtml LolHtml.Model LolHtml.Spec.Edit LolHtml.Lemmas.Edit
@@ -80,5 +81,126 @@ example :
     (({ text := [99], raw := [60, 33, 45, 45, 99, 45, 45, 62] } : Comment).applyOps
         [.mut .remove, .mut (.before (.buffer [60] .text)), .mut (.after (.buffer [62] .text))]).intoBytes encUtf8
       = [38, 108, 116, 59, 38, 103, 116, 59] := by decide
+
+
+/-! ## C07_removed_content — the emission switch
+
+`Model.step` is one source token through dispatcher + rewrite controller; `Model.steps` a token list.
+`RInv` says: `matched_elements_with_removed_content` = number of open elements whose content is
+removed, `emission_enabled` = (that number = 0), and the counter never underflowed. It holds
+initially and after every token, for every set of handlers and every script. -/
+
+open LolHtml.Lemmas.EditDoc
+
+theorem C07_removed_content_invariant (H : List Handler) (enc : Enc) (toks : List SrcToken)
+    (s : St) (h : RInv s) : RInv (steps H enc s toks).1 := by
+  induction toks generalizing s with
+  | nil => exact h
+  | cons t ts ih => exact ih _ (step_spec H enc s t h).1
+
+theorem C07_removed_content_invariant_init (H : List Handler) (enc : Enc) (toks : List SrcToken) :
+    RInv (steps H enc (St.init H) toks).1 :=
+  C07_removed_content_invariant H enc toks _ (RInv_init H)
+
+/-- Under the invariant, "emission is off" is the same as "some open element has its content removed". -/
+theorem C07_emission_off_iff (s : St) (h : RInv s) :
+    s.emission = false ↔ ∃ it ∈ s.stack, it.data.removeContent = true := by
+  rw [h.emission, h.count, countRemoved]
+  constructor
+  · intro hz
+    have : (s.stack.filter fun it => it.data.removeContent) ≠ [] := by
+      intro hnil; simp [hnil] at hz
+    obtain ⟨it, hit⟩ := List.exists_mem_of_ne_nil _ this
+    rw [List.mem_filter] at hit
+    exact ⟨it, hit.1, hit.2⟩
+  · rintro ⟨it, hmem, hrc⟩
+    have : it ∈ s.stack.filter fun it => it.data.removeContent := List.mem_filter.mpr ⟨hmem, hrc⟩
+    have hpos : 0 < (s.stack.filter fun it => it.data.removeContent).length := List.length_pos_of_mem this
+    cases hl : (s.stack.filter fun it => it.data.removeContent).length with
+    | zero => omega
+    | succ n => rfl
+
+/-- Emission stays off during the whole token sequence. -/
+def staysOff (H : List Handler) (enc : Enc) : St → List SrcToken → Prop
+  | _, [] => True
+  | s, t :: ts => (step H enc s t).1.emission = false ∧ staysOff H enc (step H enc s t).1 ts
+
+/-- **Nothing between the start tag of an element whose content is removed and the end tag that
+closes it reaches the sink**: as long as some element with removed content stays open (emission
+off before and after each token), every token contributes the empty output — whatever the handlers
+do on the tokens inside (insertions before/after, replacements, nested elements with their own
+deferred end-tag edits, text and comment handlers …). -/
+theorem C07_removed_content_silent (H : List Handler) (enc : Enc) (toks : List SrcToken) (s : St)
+    (h : RInv s) (hoff : s.emission = false) (hstay : staysOff H enc s toks) :
+    (steps H enc s toks).2.flatten = [] := by
+  induction toks generalizing s with
+  | nil => rfl
+  | cons t ts ih =>
+    have hs := step_spec H enc s t h
+    simp only [steps, List.flatten_cons]
+    rw [hs.2 hoff hstay.1, ih _ hs.1 hstay.1 hstay.2]
+    rfl
+
+/-- **Emission resumes exactly at the end tag that closes the last such element**: if emission was
+off and this end tag pops every element with removed content, the sink receives exactly the
+serialisation of that end tag with the deferred end-tag edits of the elements it closes (so
+`after` content of the removed element appears, its removed end tag does not, …). -/
+theorem C07_removed_content_resume (H : List Handler) (enc : Enc) (s : St) (name raw : Bytes)
+    (h : RInv s) (hoff : s.emission = false)
+    (hon : (step H enc s (.endTag name raw)).1.emission = true) :
+    (step H enc s (.endTag name raw)).2 = (endTagToken H enc s name raw).intoBytes enc :=
+  (stepEndTag_spec H enc s name raw h).2.2.1 hoff hon
+
+/-- Only an end tag can switch emission back on. -/
+theorem C07_removed_content_only_end_tag_resumes (H : List Handler) (enc : Enc) (s : St)
+    (tok : SrcToken) (h : RInv s) (hoff : s.emission = false)
+    (hon : (step H enc s tok).1.emission = true) : ∃ n r, tok = .endTag n r := by
+  cases tok with
+  | endTag n r => exact ⟨n, r, rfl⟩
+  | startTag n a sc ns r =>
+    have hs := stepStartTag_spec H enc s n a sc ns r h
+    have h1 := hs.1.emission
+    have h0 := h.emission
+    simp only [step] at hon
+    rw [hoff] at h0; rw [hon] at h1
+    have : s.removedCount ≠ 0 := by intro hz; simp [hz] at h0
+    have : (stepStartTag H enc s n a sc ns r).1.removedCount = 0 := by simpa using h1.symm
+    have := hs.2.2
+    omega
+  | text raw =>
+    have := (step_nontag_spec H enc s (.text raw) (by intros; simp) (by intros; simp)).1.emission
+    rw [hon, hoff] at this; cases this
+  | comment t raw =>
+    have := (step_nontag_spec H enc s (.comment t raw) (by intros; simp) (by intros; simp)).1.emission
+    rw [hon, hoff] at this; cases this
+  | doctype raw =>
+    have := (step_nontag_spec H enc s (.doctype raw) (by intros; simp) (by intros; simp)).1.emission
+    rw [hon, hoff] at this; cases this
+
+
+/-! Non-vacuity: `<div>a</div>y` with `div { set_inner_content("X"); after("A") }` and a text handler on
+`*` that inserts `!` before every chunk: the handler runs on `a` (inside the removed content) but its
+insertion never reaches the sink; emission is off after `<div>`, stays off over the text, resumes at
+`</div>`. -/
+
+def exH : List Handler :=
+  [{ sel := some (.type [100, 105, 118]),
+     script := .element fun _ => [.setInnerContent (.buffer [88] .html), .after (.buffer [65] .html)] },
+   { sel := some .any, script := .text fun _ => [.mut (.before (.buffer [33] .html))] }]
+
+def exToks : List SrcToken :=
+  [.startTag [100, 105, 118] [] false .html [60, 100, 105, 118, 62], .text [97],
+   .endTag [100, 105, 118] [60, 47, 100, 105, 118, 62], .text [121]]
+
+example : (rewrite exH encUtf8 exToks).2
+    = [60, 100, 105, 118, 62, 88, 60, 47, 100, 105, 118, 62, 65, 121] := by decide
+
+example : (step exH encUtf8 (St.init exH) exToks[0]).1.emission = false := by decide
+
+example : staysOff exH encUtf8 (step exH encUtf8 (St.init exH) exToks[0]).1 [.text [97]] :=
+  ⟨by decide, trivial⟩
+
+/-- the text handler did run on the removed text (2 chunks: `a` and the end-of-node chunk) -/
+example : (steps exH encUtf8 (St.init exH) (exToks.take 3)).1.inv 1 = 2 := by decide
 
 end LolHtml.Thm.C07
